@@ -13,7 +13,7 @@ WEIGHTS_IN = {"eval": 4, "set_ref": 2, "new_cells": 2, "set_formula": 1, "new_sp
 def swarm(rng):
     cfg = c02.swarm(rng)
     cfg.update({"n_spaces": 2, "n_cells": 2, "n_refs": 1, "n_steps": rng.choice([12, 20, 30]),
-                "p_registry": rng.choice([0.3, 0.5]), "cross_refs": rng.random() < 0.3, "p_sformula": 0.2,
+                "p_registry": rng.choice([0.3, 0.5]), "cross_refs": rng.random() < 0.5, "p_sformula": 0.2,
                 "p_objref": 0.0, "recalc": False})
     return cfg
 
@@ -275,6 +275,58 @@ class Session:
                 return
             self.compare(before, "cross_base-rejected", None)
             self.check_registry("cross_base")
+        elif k == "cross_ref_sub":
+            # a space-level reference to an object of another model, in a space that has a sub space: the sub space's derived
+            # reference denotes that very object (never a namesake of its own model found by the dotted name); and a space of
+            # another model given to remove_bases removes nothing of this model
+            tgt = self.by_tag(op["to"])
+            if tgt is None or tgt is mach:
+                return
+            mine = list(mach.ref.all_spaces())
+            sps = list(tgt.ref.all_spaces())
+            if not mine or not sps:
+                return
+            try:
+                pairs = []
+                for a in mine:
+                    for b in mine:
+                        if b is not a and a in rm.mro(b)[1:]:
+                            pairs.append((a, b))
+            except rm.NoMRO:
+                return
+            if not pairs:
+                return
+            base, sub = pairs[op["j"] % len(pairs)]
+            same = [x for x in sps if x.path() == base.path() or x.path() == sub.path()]
+            t = (same or sps)[op["i"] % len(same or sps)]
+            blive, slive, tlive = mach.world.space(base.path()), mach.world.space(sub.path()), tgt.world.space(t.path())
+            if "xs" in blive.refs or "xs" in slive.refs:
+                return
+            before = self.snapshot()
+            try:
+                blive.set_ref("xs", tlive, refmode=op["mode"])
+            except Exception as e:
+                self.events.append("cross_ref_sub rejected %s" % type(e).__name__)
+                self.compare(before, "cross_ref_sub-rejected", None)
+                return
+            try:
+                got = slive.xs
+                self.ctx.count("cross_model_refs_derived", 1, "reach")
+                if got is not tlive:
+                    raise Violation("C19/cross-model-reference-rebound-in-sub-space/mode=" + op["mode"],
+                                    {"base": base.path(), "sub": sub.path(), "target": tlive.fullname, "got": getattr(got, "fullname", repr(got))})
+                bases0 = [b.fullname for b in slive.bases]
+                try:
+                    slive.remove_bases(tlive)
+                except Exception:
+                    pass
+                if [b.fullname for b in slive.bases] != bases0:
+                    raise Violation("C19/remove_bases-of-another-models-space-removed-a-namesake", {"sub": sub.path(), "asked": tlive.fullname})
+            finally:
+                try:
+                    del blive.xs
+                except Exception:
+                    pass
         elif k == "cross_ref_item":
             # a reference to a space of another model, read inside an ItemSpace: it keeps denoting that object
             tgt = self.by_tag(op["to"])
@@ -355,6 +407,9 @@ class Session:
                 if q < 0.3:
                     return {"op": "cross_base", "m": mach.tag, "to": other.tag, "i": rng.randrange(100), "j": rng.randrange(100),
                             "how": rng.choice(["new_space", "add_bases"])}
+                if q < 0.45:
+                    return {"op": "cross_ref_sub", "m": mach.tag, "to": other.tag, "i": rng.randrange(100), "j": rng.randrange(100),
+                            "mode": rng.choice(["auto", "auto", "relative", "absolute"])}
                 if q < 0.6:
                     return {"op": "cross_ref_item", "m": mach.tag, "to": other.tag, "i": rng.randrange(100), "j": rng.randrange(100),
                             "mode": rng.choice(["auto", "absolute"])}
